@@ -91,11 +91,22 @@ def native_run(cpp_body, cfg='default', extra_flags=()):
 
 def extract_witness(o, trace):
     seq, last = parse_trace(trace)
-    w = dict(scalars={})
+    w = dict(scalars={}, paths={})
     for k, v in last.items():
         if not k.startswith(o.entry + '::'):
             continue
         name = k.split('::', 1)[1]
+        # record inputs initialised field by field in witness mode (ND_AGG ...): lvalue paths like u.buffer.d[3], u.components.port
+        mp = re.match(r'^(\w+(?:\.\w+)+)(?:\[(\d+)\w*\])?$', name)
+        if mp and '$' not in name:
+            iv = to_int(v)
+            if iv is None:
+                mm = re.match(r"^'(\\?.)'$", v)
+                if mm:
+                    ch = mm.group(1)
+                    iv = ord(ch) if len(ch) == 1 else {'n': 10, 't': 9, 'r': 13, '0': 0, '\\': 92, "'": 39}.get(ch[-1], ord(ch[-1]))
+            if iv is not None:
+                w['paths'][mp.group(1) + ('[%s]' % mp.group(2) if mp.group(2) is not None else '')] = iv
         if '[' in name or name.startswith('__nd_') or name.startswith('return_value') or name.startswith('goto_symex') or name.startswith('tmp_'):
             continue
         iv = to_int(v)
@@ -142,6 +153,19 @@ def handle_failure(prop, o, r):
             rp['native'] = {k: v for k, v in nat.items()}
             rp['reproduced'] = bool(nat.get('reproduced'))
             rp['native_src'] = src
+        if not rp['reproduced'] and not o.enforce and not o.stub and not o.replace and info.get('_ex') is not None:
+            # second generation: the C harness itself, linked against extern "C" wrappers of the real functions
+            from . import shim
+            try:
+                c_text, cpp_text = shim.build(o, info['_ex'], info, w)
+                nat2 = native_run_shim(c_text, cpp_text, o.cfg if o.cfg in ('avx512', 'ssse3') else 'default')
+                rp['native_shim'] = {k: v for k, v in nat2.items()}
+                if nat2.get('ok'):
+                    rp['native'] = rp['native_shim']
+                    rp['reproduced'] = bool(nat2.get('reproduced'))
+                    rp['native_c'] = c_text; rp['native_cpp'] = cpp_text
+            except shim.NoShim as e:
+                rp['native_shim'] = dict(ok=False, error='no shim: %s' % e)
     except Exception as e:   # replay is best effort; the violation stands
         import traceback
         rp['native'] = dict(ok=False, error='replay construction failed: %r %s' % (e, traceback.format_exc()[-800:]))
@@ -170,11 +194,41 @@ def native_run_src(src_text, cfg='default'):
                 reproduced=any(l.startswith('FAIL') for l in out.splitlines()))
 
 
+def native_run_shim(c_text, cpp_text, cfg='default'):
+    d = ensure_dir(os.path.join(BUILD, 'replay'))
+    key = sha(c_text + cpp_text + cfg)[:16]
+    csrc, xsrc = os.path.join(d, 'r_%s.c' % key), os.path.join(d, 'r_%s_shim.cpp' % key)
+    cobj, xobj, exe = csrc[:-2] + '.o', xsrc[:-4] + '.o', os.path.join(d, 'r_%s.bin' % key)
+    open(csrc, 'w').write(c_text); open(xsrc, 'w').write(cpp_text)
+    fl = [f for f in A.flags(cfg)]
+    rc, out, err, _ = run(['g++'] + fl + ['-fno-access-control', '-w', '-c', xsrc, '-o', xobj], timeout=900)
+    if rc != 0:
+        return dict(ok=False, error='shim did not compile: ' + err[-1500:], src=xsrc)
+    rc, out, err, _ = run(['gcc', '-std=gnu11', '-O1', '-w', '-c', csrc, '-o', cobj], timeout=300)
+    if rc != 0:
+        return dict(ok=False, error='native harness did not compile: ' + err[-1500:], src=csrc)
+    rc, out, err, _ = run(['g++', cobj, xobj, '-o', exe], timeout=300)
+    if rc != 0:
+        return dict(ok=False, error='native replay did not link: ' + err[-1500:], src=csrc)
+    rc, out, err, _ = run([exe], timeout=60)
+    for f in (exe, cobj, xobj):
+        try:
+            os.remove(f)
+        except OSError:
+            pass
+    return dict(ok=True, rc=rc, out=out[-4000:], err=err[-1000:], src=csrc, shim=xsrc,
+                reproduced=any(l.startswith('FAIL') for l in out.splitlines()))
+
+
 def replay_file(path):
     rp = json.load(open(path))
     print('obligation', rp['obligation'], 'property', rp['property'])
     print('failed:', *rp.get('failed_cbmc_properties', []), sep='\n  ')
     print('witness:', rp.get('witness'))
+    if rp.get('native_c'):
+        nat = native_run_shim(rp['native_c'], rp['native_cpp'], rp.get('config') if rp.get('config') in ('avx512', 'ssse3') else 'default')
+        print(nat.get('out', ''), nat.get('error', ''))
+        return 1 if nat.get('reproduced') else 0
     if rp.get('native_src'):
         nat = native_run_src(rp['native_src'], rp.get('config') if rp.get('config') in ('avx512', 'ssse3') else 'default')
         print(nat.get('out', ''), nat.get('error', ''))
